@@ -17,8 +17,16 @@ import vlib
 from vlib import log
 
 
+SYM = {"U+C4": "\u00c4", "U+E4": "\u00e4"}
+UNSYM = {v: k for k, v in SYM.items()}
+
+
+def text(chars):
+    return "".join(SYM.get(ch, ch) for ch in chars)
+
+
 def vname(v):
-    return ("r#" if v["raw"] else "") + "".join(v["name"])
+    return ("r#" if v["raw"] else "") + text(v["name"])
 
 
 def enum_key(vs):
@@ -64,7 +72,7 @@ def probe_source(enums):
 
 
 def run(chk, tier, seed, replay):
-    chk.assumptions += ["variant pool: Foo/FOO/foo, Ba/BA, r#fn/Fn, a; strings over the letters of these names in both cases plus '#'",
+    chk.assumptions += ["variant pool: Foo/FOO/foo, Ba/BA, r#fn/Fn, a, Äa/äa (non-ASCII case pair); strings over the letters of these names in both cases plus '#'",
                         "newtypes over i32, u8, bool, f32, char, IpAddr with a fixed corpus of valid and invalid strings"]
     r = vlib.run_tlc("MC_FromStr", f"MC_FromStr_{tier}", workers=8, timeout=2400, xmx="8g")
     chk.add_tlc(r, "enums x strings")
@@ -89,14 +97,14 @@ def run(chk, tier, seed, replay):
                       expected="compiles", observed=[e["message"] for e in errs[:5]], tags={"kind": "compile_error"})
         return
     rnd = random.Random(seed)
-    queries = [(eidx[enum_key(c["vs"])], "".join(c["s"]), c["doc"], c) for c in cases]
+    queries = [(eidx[enum_key(c["vs"])], text(c["s"]), c["doc"], c) for c in cases]
     # T: random longer strings, results recorded as events for TLC
-    alph = ["F", "f", "O", "o", "B", "a", "A", "n", "#", "r", "N", "b", "R", "Z"]
+    alph = ["F", "f", "O", "o", "B", "a", "A", "n", "#", "r", "N", "b", "R", "Z", "Ä", "ä"]
     extra = []
     n_extra = 4000 if tier == "quick" else 60000
     for _ in range(n_extra):
         vs = rnd.choice(enums)
-        base = list(rnd.choice(vs)["name"])
+        base = list(text(rnd.choice(vs)["name"]))
         op = rnd.random()
         if op < 0.4:     # case-mutated own name
             s = [ch.upper() if rnd.random() < 0.5 else ch.lower() for ch in base]
@@ -146,7 +154,7 @@ def run(chk, tier, seed, replay):
     tpath = os.path.join(vlib.WORK, "c13", "trace.ndjson")
     with open(tpath, "w") as f:
         for n, ((i, s, vs, chars), line) in enumerate(zip(extra, res[len(queries):])):
-            f.write(json.dumps({"id": n, "vs": vs, "s": chars, "result": int(line.split("\t")[0])}) + "\n")
+            f.write(json.dumps({"id": n, "vs": vs, "s": [UNSYM.get(ch, ch) for ch in chars], "result": int(line.split("\t")[0])}) + "\n")
     tr = vlib.run_tlc("Trace_FromStr", "Trace_FromStr", workers=1, timeout=1800, dfs=True, env={"TRACE": tpath}, xmx="6g")
     chk.add_tlc(tr, "trace validation of random strings")
     done = tr.tagged.get("DONE", [])
